@@ -23,8 +23,8 @@ Import ListNotations.
 
 (* ------------------------------------------------------------------ obligations on the regenerated tables *)
 (* listings of pydoctor's OWN installed package (not of the project) that are iterated unsorted; reviewed by hand:
-   Template.fromdir feeds a dict keyed by template name whose consumers write one file per key (see
-   C18_static_writes_commute); the other three produce the extension load order and two argparse `choices` lists.
+   Template.fromdir feeds a dict keyed by lower-cased template name whose consumers write one file per key (see
+   C18_template_listing_partial / _refuted and C18_static_writes_commute); the other three produce the extension load order and two argparse `choices` lists.
    They are exercised by the differential (the harness shuffles every listing) and named here so that any NEW
    unsorted iteration breaks the lemma. *)
 Definition reviewed_funcs : list N :=
@@ -49,6 +49,12 @@ Lemma key_tables_checked :
   page_counters = 2%N.
 Proof. vm_compute. repeat split; reflexivity. Qed.
 
+(* the premise of C18_overwrite_complete, read off the source: every open() of pydoctor that creates or modifies a
+   file uses a truncating mode ('w' / 'wb'), and the compat symlink is unlinked (if present) then created again *)
+Lemma write_discipline_checked :
+  forallb (fun p => truncating (snd p)) write_modes = true /\ relink_is_unlink_then_symlink = true.
+Proof. vm_compute. split; reflexivity. Qed.
+
 Theorem C18_order_sources_free :
   forall s, In s sources ->
     order_free s = true \/ (s_src s = SrcListing /\ s_ctx s = CtxIterate /\ In (s_func s) reviewed_funcs).
@@ -59,6 +65,27 @@ Proof.
   split; [reflexivity|]. split; [reflexivity|].
   apply existsb_exists in H as [x [Hx E]]. apply N.eqb_eq in E. subst x. exact Hx.
 Qed.
+
+(* ------------------------------------------------------------------ build time *)
+Lemma clock_checked :
+  forallb (fun p => clock_harmless (snd p)) clock_reads = true /\
+  existsb (bt_source_eqb BEnvEpoch) buildtime_sources = true /\ existsb (bt_source_eqb BOption) buildtime_sources = true.
+Proof. vm_compute. repeat split; reflexivity. Qed.
+
+(* with SOURCE_DATE_EPOCH or --buildtime the time stamp of the pages does not depend on the clock; the option wins *)
+Theorem C18_buildtime_fixed :
+  forall env opt now1 now2, (env <> None \/ opt <> None) ->
+    buildtime env opt now1 = buildtime env opt now2 /\
+    (forall t, opt = Some t -> buildtime env opt now1 = t).
+Proof.
+  intros env opt now1 now2 H. vm_compute.
+  destruct opt as [t|]; [split; [reflexivity|intros t' E; inversion E; reflexivity]|].
+  destruct env as [e|]; [split; [reflexivity|intros t' E; discriminate]|].
+  destruct H as [H|H]; contradiction.
+Qed.
+
+Theorem C18_buildtime_unset_refuted : exists now1 now2, buildtime None None now1 <> buildtime None None now2.
+Proof. exists 1%Z, 2%Z. vm_compute. discriminate. Qed.
 
 (* ------------------------------------------------------------------ directory listing order *)
 (* addPackage sees sort(pi listing): module creation order (hence unprocessed_modules, allobjects, rootobjects)
@@ -184,6 +211,39 @@ Theorem C18_rerun_same_output : forall ops,
   (forall n, In n (write_names ops) -> ~ In n (relink_names ops)) ->
   same_dir (apply_ops ops (apply_ops ops [])) (apply_ops ops []).
 Proof. exact rerun_same_output. Qed.
+
+(* operations on pairwise distinct names commute: the order in which the (unsorted) template listing hands the static
+   files to prepOutputDirectory does not matter *)
+Theorem C18_static_writes_commute : forall ops1 ops2 d,
+  Permutation ops1 ops2 -> NoDup (map op_name ops1) ->
+  (forall n, In n (write_names ops1) -> ~ In n (relink_names ops1)) ->
+  (forall n t, lookup n d = Some (Symlink t) -> In n (relink_names ops1)) ->
+  same_dir (apply_ops ops1 d) (apply_ops ops2 d).
+Proof. exact writes_commute. Qed.
+
+(* KNOWN FINDING C18-template-case-collision: Template.fromdir iterates the template directory unsorted; two files of
+   ONE --template-dir whose names differ only in case collide in the case-insensitive lookup (first name kept, last
+   content wins), so which file is written, and with which bytes, depends on the listing order ... *)
+Theorem C18_template_listing_refuted :
+  exists (files : list tmpl) (pi1 pi2 : list tmpl -> list tmpl),
+    perm_oracle pi1 /\ perm_oracle pi2 /\ NoDup (map fst files) /\
+    ~ same_dir (apply_ops (static_ops (load_dir ascii_lower pi1 files [])) [])
+               (apply_ops (static_ops (load_dir ascii_lower pi2 files [])) []).
+Proof.
+  exists [([109; 46; 99; 115; 115]%N, 1%N); ([77; 46; 99; 115; 115]%N, 2%N)], (fun l => l), (@rev tmpl).
+  split; [apply perm_oracle_id|]. split; [apply perm_oracle_rev|].
+  split; [repeat constructor; cbn; intuition discriminate|].
+  intros H. specialize (H [109; 46; 99; 115; 115]%N). vm_compute in H. discriminate.
+Qed.
+
+(* ... and not otherwise: when the names of the directory are distinct case-insensitively the lookup (as a map
+   from lower-cased name to stored name and content) is the same for every listing order; the writes that follow are
+   one per key and commute (C18_static_writes_commute) *)
+Theorem C18_template_listing_partial :
+  forall (lower : text -> text) (pi1 pi2 : list tmpl -> list tmpl) files base,
+    perm_oracle pi1 -> perm_oracle pi2 -> NoDup (map (fun t : tmpl => lower (fst t)) files) ->
+    forall k, tl_lookup k (load_dir lower pi1 files base) = tl_lookup k (load_dir lower pi2 files base).
+Proof. exact load_dir_order_free. Qed.
 
 (* the hypotheses are needed: a stale file survives; a symlink left where a page is now written is written THROUGH *)
 Theorem C18_overwrite_stale_prev_refuted :
